@@ -253,6 +253,7 @@ func (s *VerifAutoScaling) CreateOrUpdateTags(in *autoscaling.CreateOrUpdateTags
 
 type VerifEC2 struct {
 	ec2iface.EC2API
+	fleetCalls int
 	J  *VerifJournal
 	AS *VerifAutoScaling
 	// FleetSize: number of instance ids CreateFleet returns (-1 = as many as requested)
@@ -332,8 +333,12 @@ func (e *VerifEC2) CreateFleet(in *ec2.CreateFleetInput) (*ec2.CreateFleetOutput
 	}
 	e.Fleet = nil
 	per := (n + sets - 1) / sets
+	e.fleetCalls++
 	for k := 0; k < n; k++ {
 		id := "i-f" + strconv.Itoa(k)
+		if e.fleetCalls > 1 {
+			id = "i-f" + strconv.Itoa(e.fleetCalls) + "x" + strconv.Itoa(k)
+		}
 		e.Fleet = append(e.Fleet, id)
 		c.IDs = append(c.IDs, id)
 		if k%maxInt(per, 1) == 0 {
